@@ -1194,7 +1194,7 @@ func TestC11(t *testing.T) {
 	if !r.Replaying() {
 		r.Require("snapshots_compared", n*2)
 		r.Require("differential_comparisons", n*2)
-		r.Require("final_get_differentials", n)
+		r.Require("final_get_differentials", n*3/4)
 		r.Require("ctx_reused_from_earlier_connection", n/2)
 		r.Require("expectations_rejected", n/50)
 		r.Require("invalid_rejected", n/50)
